@@ -139,10 +139,10 @@ var sweepCfgs = []Config{
 func ChainSpecials() []Special {
 	var l []Special
 	for j := 0; j < 10; j++ {
-		l = append(l, Special{sweepCfgs[j], Plan{ChainFrom: 51 * j, ChainTo: 51 * (j + 1), MaxOps: 1}})
+		l = append(l, Special{sweepCfgs[j], Plan{ChainFrom: 51 * j, ChainTo: 51 * (j + 1), MaxOps: -1}})
 	}
 	for sh := 0; sh < 4; sh++ {
-		l = append(l, Special{sweepCfgs[(3*sh+1)%len(sweepCfgs)], Plan{ChainDecl: sh + 1, ChainFrom: 0, ChainTo: 7 * len(DeclShapes[sh]), MaxOps: 1}})
+		l = append(l, Special{sweepCfgs[(3*sh+1)%len(sweepCfgs)], Plan{ChainDecl: sh + 1, ChainFrom: 0, ChainTo: 7 * len(DeclShapes[sh]), MaxOps: -1}})
 	}
 	return l
 }
@@ -170,11 +170,11 @@ func BoundarySpecials(thorough bool) []Special {
 	add := func(cfg Config, kind, from, to int) {
 		from = max(from, 0)
 		for a := from; a < to; a += 48 {
-			l = append(l, Special{cfg, Plan{BoundaryKind: kind, BoundaryFrom: a, BoundaryTo: min(a+48, to), MaxOps: 1, NoModel: true}})
+			l = append(l, Special{cfg, Plan{BoundaryKind: kind, BoundaryFrom: a, BoundaryTo: min(a+48, to), MaxOps: -1, NoModel: true}})
 		}
 		// a few objects from the middle of the window also go through the model
 		mid := (from + to) / 2
-		l = append(l, Special{cfg, Plan{BoundaryKind: kind, BoundaryFrom: mid, BoundaryTo: min(mid+6, to), MaxOps: 1}})
+		l = append(l, Special{cfg, Plan{BoundaryKind: kind, BoundaryFrom: mid, BoundaryTo: min(mid+6, to), MaxOps: -1}})
 	}
 	lo, hi := 1024-t-70, 1024+8
 	add(Config{VIdx: 7}, 1, lo, hi)
